@@ -153,6 +153,9 @@ def generate(rng, tier):
             + [(65558, "owner", ("ENC", "RT")), (65569, "rdata", ("ENC", "RT"))]
     for t, variant, ops in near64k:
         add_msg("size-65536", size_targeted(rng, t, variant, tok.TXT if t % 2 else tok.NULL), ops)
+    # 2b. confusable names (different names that a careless memoisation key would identify)
+    for m in wiregen.confusable_messages(rng):
+        add_msg("confusable-names", m)
     # 3. header sweep
     for i, m in enumerate(wiregen.header_sweep_messages(tier)):
         add_msg("header", m)
